@@ -136,6 +136,20 @@ func C41(e *simkern.Env) {
 			}
 			return cfg
 		}
+		// stream inputs as external pointers: the client stores the input's IPC
+		// stream and sends the zero-row pointer batch; the server has to fetch,
+		// resolve (and, for int32 inputs, cast) it on that turn
+		extInputs := storage && tp.Bool(1, 2)
+		extIn := func(b arrow.RecordBatch) arrow.RecordBatch {
+			if !extInputs || b.NumRows() == 0 || b.NumCols() == 0 || !tp.Bool(2, 3) {
+				return b
+			}
+			sim.Fault("external-input-pointer")
+			url := store.put(hx.EncodeStream(b.Schema(), b), "")
+			ptr := hx.PointerLike(b, hx.M(hx.KLocation, url))
+			b.Release()
+			return ptr
+		}
 		base, _ := outstanding()
 		judged := 0
 		leak := func(site, what string) bool {
@@ -152,7 +166,7 @@ func C41(e *simkern.Env) {
 			if storage {
 				s.SetExternalLocation(extCfg())
 			}
-		}), Ops: ops}
+		}), Ops: ops, ExtInput: extIn}
 		reason := pipew.RunSession(sim, sess, kn, 80000)
 		if reason == simkern.StopDeadlock {
 			e.Harness("pipe session deadlocked: %s", sess.StuckDetail())
@@ -201,6 +215,14 @@ func C41(e *simkern.Env) {
 						httpw.RunStream(op, httpw.StreamOpts{
 							Pick:          func() *httpw.Instance { return cl.Inst[0] },
 							BeforeRequest: func(string) { sim.Y("client.request") },
+							ExtBody: func(k int, in arrow.RecordBatch, m hx.Meta) []byte {
+								if !extInputs || in.NumRows() == 0 || !tp.Bool(2, 3) {
+									return nil
+								}
+								sim.Fault("external-input-pointer")
+								url := store.put(hx.EncodeStream(in.Schema(), in), "")
+								return hx.RawRequestBytes(hx.PointerLike(in, hx.Meta{}), m.Add(hx.KLocation, url))
+							},
 							OnResponse: func(kind string, _ *httpw.Instance, resp *hx.Resp, _ []byte) {
 								if !e.Violated() {
 									leak("http:stream-"+kind+"/"+sigTail(op), fmt.Sprintf("after HTTP %s of %s (status %d)", kind, op.Sig(), resp.Status))
@@ -257,11 +279,11 @@ func init() {
 	Registry["C41"] = &Info{
 		Run:   C41,
 		Level: "exploration",
-		Rule:  "built with -tags verif,leakcheck: each run draws a call history (2-8 calls: success, handler error, panic, init failure, failing turns, cancel, abandon, castable and non-castable inputs, malformed and unknown-method requests), external storage on/off with threshold and upload compression, response caps, and fault rates for uploads and fetches; the history runs on a simulated pipe (outstanding allocation judged when the session is over) and over HTTP (judged after every request: unary, stream init, exchange, producer continuation, cancel; some unary requests sent as external pointers the server must fetch through a failing RoundTripper); distinct = schedule fingerprint",
+		Rule:  "built with -tags verif,leakcheck: each run draws a call history (2-8 calls: success, handler error, panic, init failure, failing turns, cancel, abandon, castable and non-castable inputs, malformed and unknown-method requests), external storage on/off with threshold and upload compression, response caps, and fault rates for uploads and fetches; the history runs on a simulated pipe (outstanding allocation judged when the session is over) and over HTTP (judged after every request: unary, stream init, exchange, producer continuation, cancel; some unary requests, and in half of the runs with storage two thirds of the stream inputs — including castable int32 ones — sent as external pointers the server must fetch through a failing RoundTripper); distinct = schedule fingerprint",
 		Real:  []string{"vgirpc dispatch paths on pipe and HTTP with the checked allocator (alloc_leakcheck.go), external upload/resolve, cast, caps"},
 		Stub:  []string{"transports", "protocol client", "object store / origin with injected upload and fetch failures", "scripted handlers (allocate with their own allocator)"},
 		Quick: 600, Thorough: 60000,
-		FaultKinds: []string{"upload-failure", "fetch-error", "fetch-status", "fetch-truncated", "external-request-pointer", "client-cancel", "malformed-request"},
+		FaultKinds: []string{"upload-failure", "fetch-error", "fetch-status", "fetch-truncated", "external-request-pointer", "external-input-pointer", "client-cancel", "malformed-request"},
 		Assumptions: []string{"the balance is read through the package's own LeakCheckSummary", "on a pipe the balance is judged at the end of the session (while a call is in flight the server may still hold batches); shared-memory resolution is exercised under C36"},
 	}
 }
